@@ -30,7 +30,6 @@ import (
 
 	"github.com/ProtonMail/gluon/db"
 	"github.com/ProtonMail/gluon/imap"
-	"github.com/ProtonMail/gluon/verifhooks"
 	"github.com/mattn/go-sqlite3"
 	"github.com/sirupsen/logrus"
 )
@@ -264,13 +263,15 @@ type dbxSession struct {
 	full    bool
 	pos     int
 	randIDs map[string]string // DELETED-<uuid> -> DELETED-<token position>
-	counts  map[string]int    // calls per method (generator statistics)
+	counts  map[string]int    // calls per method (generator statistics); keys starting with `~` are not methods
+	variant string            // client variant (d_db_client.go); "" = plain
 }
 
 var dbxAbort = errors.New("dbx: closure returns an error")
 
 func dbxNewSession(full bool) (*dbxSession, error) {
 	logrus.SetOutput(io.Discard)
+	dbxcLogSetup()
 	dir, err := os.MkdirTemp("", "vh-c08-")
 	if err != nil {
 		return nil, err
@@ -284,8 +285,16 @@ func dbxNewSession(full bool) (*dbxSession, error) {
 }
 
 func (s *dbxSession) open() error {
-	c, _, err := verifhooks.NewSQLiteDB().New(s.dir, "user")
+	ci, err := dbxcBuilder(s.variant)
 	if err != nil {
+		return err
+	}
+	c, _, err := ci.New(s.dir, "user")
+	if err != nil {
+		return err
+	}
+	if err := dbxcCheckClient(c, s.variant); err != nil {
+		_ = c.Close()
 		return err
 	}
 	if err := c.Init(context.Background(), dbxUIDGen{}); err != nil {
@@ -850,7 +859,14 @@ func (s *dbxSession) run(toks []string) []string {
 			s.pos++
 			i++
 		default:
-			out = append(out, "bad")
+			switch {
+			case dbxcIsGrow(tok):
+				out = append(out, s.dbxcGrow(dbxcTokArg(tok)))
+			case dbxcIsClient(tok):
+				out = append(out, s.dbxcSetClient(dbxcTokArg(tok)))
+			default:
+				out = append(out, "bad")
+			}
 			s.pos++
 			i++
 		}
@@ -1061,6 +1077,7 @@ type dbxGenState struct {
 	reads   map[string]bool
 	all     []string
 	bulkLen int
+	dumpAll bool // a dump after every transaction (tours through the client variants)
 }
 
 var dbxFlagPool = []string{`\Seen`, `\seen`, `\Flagged`, `\Answered`, `\Draft`, `\Deleted`, "custom", "Custom", "$Forwarded", "x.y"}
@@ -1435,14 +1452,38 @@ func (g *dbxGenState) tx(write bool, calls []string, commit bool) {
 }
 
 func (g *dbxGenState) between() {
-	if g.r.Chance(2, 5) {
+	if g.dumpAll || g.r.Chance(2, 5) {
 		g.toks = append(g.toks, "dump")
 		g.st.Inc("dump")
 	}
 	if g.r.Chance(1, 25) {
-		g.toks = append(g.toks, "reopen")
-		g.s.run([]string{"reopen"})
-		g.st.Inc("reopen")
+		if g.r.Bool() {
+			g.toks = append(g.toks, "reopen")
+			g.s.run([]string{"reopen"})
+			g.st.Inc("reopen")
+		} else {
+			// the same database behind another client variant
+			g.control(dbxcClientTok(Pick(g.r, dbxcVariants)))
+		}
+	}
+	if g.r.Chance(1, 6) {
+		// overlapping readers in the middle of the session: the pool grows, what follows runs on another connection
+		g.control(dbxcGrowTok(Pick(g.r, []int{2, 3, 8})))
+	}
+}
+
+// control emits a token that is not a transaction (`client:<variant>`, `grow:<k>`) and executes it on the scratch database.
+func (g *dbxGenState) control(tok string) {
+	g.toks = append(g.toks, tok)
+	res := g.s.run([]string{tok})
+	switch {
+	case dbxcIsClient(tok):
+		g.st.Inc("client." + dbxcTokArg(tok))
+	case dbxcIsGrow(tok):
+		g.st.Inc("grow.k" + dbxcTokArg(tok))
+	}
+	if len(res) != 1 || res[0] != "ok" {
+		g.st.Inc("control.not-ok")
 	}
 }
 
@@ -1551,13 +1592,63 @@ func (g *dbxGenState) bulkSession(L int) {
 	g.tx(true, []string{"SetFlagsOnMessages:" + all + ":" + g.flagSet(false), "GetMessagesFlags:" + all}, !r.Chance(1, 6))
 	g.toks = append(g.toks, "dump")
 	g.tx(true, []string{"AddMessagesToMailbox:2:" + dbxRange(1, L), "SetMailboxMessagesDeletedFlag:2:" + dbxRange(1, L/2) + ":1"}, true)
+	if r.Bool() {
+		g.control(dbxcGrowTok(Pick(r, []int{2, 8})))
+	}
 	g.tx(true, []string{"RemoveMessagesFromMailbox:1:" + all, "GetMailboxMessageCount:1", "GetMessageMailboxIDs:1"}, true)
 	g.toks = append(g.toks, "dump")
 	g.tx(true, []string{"RemoveMessagesFromMailbox:2:" + all, "GetMailboxMessageCount:2"}, true)
+	g.control(dbxcGrowTok(Pick(r, []int{2, 8})))
 	g.tx(true, []string{"DeleteMessages:" + all, "GetTotalMessageCount"}, true)
 	g.toks = append(g.toks, "dump")
 	g.tx(true, []string{"DeleteMailboxWithRemoteID:r2", "DeleteMessages:" + all, "GetTotalMessageCount"}, true)
 	g.toks = append(g.toks, "dump")
+}
+
+// a session about the referential actions of the schema (ON DELETE CASCADE, SET NULL into NOT NULL, reference checks):
+// mailboxes with flags / permanent flags / attributes, messages with flags, memberships; then - after `grow:k`
+// overlapping readers, i.e. on whatever connection the pool hands out next - mailboxes and messages are deleted,
+// unknown ids are referenced, and every lookup that goes through the dependent rows is asked; a dump after every step.
+func (g *dbxGenState) refSession(k int) {
+	r := g.r
+	g.st.Inc(fmt.Sprintf("ref.grow.k%d", k))
+	step := func(write bool, calls ...string) {
+		g.tx(write, calls, true)
+		g.toks = append(g.toks, "dump")
+	}
+	n := r.Range(4, 9)
+	step(true,
+		"CreateMailbox:r1:A:"+g.flagSet(false)+":"+g.flagSet(false)+":\\Noinferiors:7",
+		"CreateMailbox:r2:B:"+g.flagSet(false)+":"+g.flagSet(true)+":~:8",
+		"CreateMailbox:r3:C:~:"+g.flagSet(false)+":\\Marked:9",
+		"SetMailboxSubscribed:2:"+b2sDbx(r.Bool()))
+	g.nextRid = 3
+	step(true, "CreateMessages:"+dbxRange(1, n)+"="+g.flagSet(false), "AddFlagToMessages:"+dbxRange(1, n/2)+":"+Pick(r, dbxFlagPool))
+	g.nextMsg = n
+	step(true, "AddMessagesToMailbox:1:"+dbxRange(1, n), "AddMessagesToMailbox:2:"+dbxRange(2, n), "AddMessagesToMailbox:3:"+dbxRange(1, 1))
+	if k > 0 {
+		g.control(dbxcGrowTok(k))
+	}
+	// references to rows that do not exist
+	g.tx(true, []string{"AddMessagesToMailbox:2:" + strconv.Itoa(n+5)}, true)
+	g.tx(true, []string{"AddFlagToMessages:" + strconv.Itoa(n+6) + ":custom"}, true)
+	g.tx(true, []string{"AddMessagesToMailbox:77:1"}, true)
+	g.toks = append(g.toks, "dump")
+	// a mailbox goes: its flags, permanent flags, attributes, memberships go with it
+	step(true, "DeleteMailboxWithRemoteID:r2", "GetMessageMailboxIDs:2", "GetMessageMailboxIDs:1", "GetMailboxFlags:2", "GetMailboxPermanentFlags:2",
+		"GetMailboxAttributes:2", "GetDeletedSubscriptionSet")
+	step(false, "GetMessageMailboxIDs:"+strconv.Itoa(n), "GetAllMailboxesWithAttr", "GetMailboxMessageCount:1", "MailboxFilterContains:1:"+dbxRange(1, n))
+	if k > 0 && r.Bool() {
+		g.control(dbxcGrowTok(k))
+	}
+	// a message that is still a member cannot go; after it left the mailbox tables it goes with its flags and memberships
+	g.tx(true, []string{"DeleteMessages:" + dbxRange(1, 2)}, true)
+	g.toks = append(g.toks, "dump")
+	step(true, "RemoveMessagesFromMailbox:1:"+dbxRange(2, 3), "DeleteMessages:"+dbxRange(2, 3), "GetMessagesFlags:"+dbxRange(1, n), "GetTotalMessageCount")
+	step(true, "CreateMessages:"+strconv.Itoa(n+1)+"=y1=10=20="+g.flagSet(false), "DeleteMessages:"+strconv.Itoa(n+1), "GetMessagesFlags:"+strconv.Itoa(n+1))
+	g.nextMsg = n + 1
+	step(true, "DeleteMailboxWithRemoteID:r1", "GetMessageMailboxIDs:1", "GetMessageMailboxIDs:4", "DeleteMailboxWithRemoteID:r3", "GetMessageMailboxIDs:1",
+		"DeleteMessages:"+dbxRange(1, n), "GetTotalMessageCount")
 }
 
 var dbxBoundary = []int{499, 500, 501, 999, 1000, 1001, 1999, 2000, 2001}
@@ -1582,6 +1673,12 @@ func dbxGen(r *Rng, n int, w io.Writer, st *Stats) {
 		bulk = []int{Pick(r, []int{0, 1, 2}), Pick(r, []int{499, 500, 501, 999, 1000}), Pick(r, []int{1001, 1999, 2000, 2001})}
 	}
 	total := map[string]int{}
+	// the client variant (d_db_client.go) rotates from session to session, starting at a point the seed chooses; the first
+	// sessions are one tour through every method per variant
+	voff := r.Intn(len(dbxcVariants))
+	tours := len(dbxcVariants)
+	refs := []int{0, 2, 8}
+	logBefore := map[logrus.Level]int{}
 	for line := 0; line < n; line++ {
 		s, err := dbxNewSession(false)
 		if err != nil {
@@ -1589,9 +1686,27 @@ func dbxGen(r *Rng, n int, w io.Writer, st *Stats) {
 			os.Exit(1)
 		}
 		g := &dbxGenState{r: r.Fork(), s: s, st: st, reads: reads, all: all, m: dbxMirror{member: map[int][]int{}}}
+		variant := dbxcVariants[(line+voff)%len(dbxcVariants)]
+		st.Inc("variant." + variant)
+		for _, l := range []logrus.Level{logrus.DebugLevel, logrus.TraceLevel} {
+			logBefore[l] = dbxcLog.count(l)
+		}
+		if variant != "plain" {
+			g.control(dbxcClientTok(variant))
+			if g.s.client == nil {
+				fmt.Fprintln(os.Stderr, "db generator: cannot open the", variant, "client")
+				os.Exit(1)
+			}
+		}
+		// overlapping readers before the session proper: 0, 2 or 8 of them
+		if k := Pick(g.r, []int{0, 2, 8}); k > 0 && line >= tours {
+			g.control(dbxcGrowTok(k))
+		}
+		line := line - (tours - 1)
 		switch {
-		case line == 0:
+		case line <= 0:
 			st.Inc("session.tour")
+			g.dumpAll = variant != "plain"
 			g.randomSession(true)
 		case line <= len(bulk):
 			st.Inc("session.bulk")
@@ -1600,6 +1715,10 @@ func dbxGen(r *Rng, n int, w io.Writer, st *Stats) {
 			// every identifier-introducing method: change, look up, abort (or commit), look up again (d_db_probe.go)
 			st.Inc("session.probe-directed")
 			g.dbxpDirected(line == len(bulk)+2)
+		case line <= len(bulk)+2+len(refs):
+			// referential actions, sequentially and after overlapping readers
+			st.Inc("session.ref")
+			g.refSession(refs[line-len(bulk)-3])
 		case line%4 == 1:
 			// change, look up, abort, look up again (d_db_probe.go)
 			st.Inc("session.probe")
@@ -1612,7 +1731,22 @@ func dbxGen(r *Rng, n int, w io.Writer, st *Stats) {
 			total[k] += v
 		}
 		s.close()
+		// what the client wrote to the log during the session: SQL texts (Debug) and call names (Trace) - only the variants that
+		// are switched on may write them, and they must
+		dbg, trc := dbxcLog.count(logrus.DebugLevel)-logBefore[logrus.DebugLevel], dbxcLog.count(logrus.TraceLevel)-logBefore[logrus.TraceLevel]
+		st.Add("variant."+variant+".log-lines.debug", dbg)
+		st.Add("variant."+variant+".log-lines.trace", trc)
 		fmt.Fprintln(w, "db d "+strings.Join(g.toks, " "))
+	}
+	var extra []string
+	for k := range total {
+		if strings.HasPrefix(k, "~") {
+			extra = append(extra, k)
+		}
+	}
+	sort.Strings(extra)
+	for _, k := range extra {
+		st.Add("pool."+k[1:], total[k])
 	}
 	// every method of db.ReadOnly / db.Transaction must have been called (a token the harness cannot execute answers `bad` and does not count)
 	var missing []string
